@@ -766,7 +766,12 @@ def reference_circuit(fn: Fn, compiler):
     def qname(i):
         # one formal per qubit, in index order: the last name mapped to the qubit, q<i> if it has none
         names = [k for k, v in qc.qubit_map.items() if v == i]
-        return names[-1] if names else f"q{i}"
+        if names:
+            return names[-1]
+        nm = f"q{i}"
+        while nm in qc.qubit_map:
+            nm = "_" + nm
+        return nm
 
     r = dict(name=qc.name, qubits=[qname(i) for i in range(qc.num_qubits)],
              qmap=[[k, v] for k, v in qc.qubit_map.items()], n=qc.num_qubits,
